@@ -304,17 +304,23 @@ def _est_job(arg):
     pids0, dids0 = h.observe(obj, owned, ids)
     pnames = [k for k, _ in h.param_digests(obj)]
     events, calls, n_eval = [], [], 0
-    for step in hist["steps"]:
+    for si, step in enumerate(hist["steps"]):
         op = step["op"]
+        # plain estimators: the data sets that contain sample 4 are always passed WITHOUT sample weights although
+        # the estimator takes them (an optional fitted attribute of an earlier, weighted fit must not survive);
+        # whether weights are passed is a function of the data set, so "same data set, same model" still holds and
+        # the reference calls use the flag of their own data set
+        def use_w_of(D_):
+            return bool(cfg["weights"] and not (cfg["kind"] == "plain" and any(s_[0] == 4 for s_ in D_)))
         if op in ("Fit", "PartialFit"):
             D = mapd(step["d"])
             refcalls = [[c[0], mapd(c[1])] for c in step["ref"]]
             X, y, w = tab.data(D, task, n_annot)
             calls.append({"call": "fit" if op == "Fit" else "partial_fit", "X": X.tolist(), "y": y.tolist(),
-                          "sample_weight": w.tolist() if cfg["weights"] else None})
+                          "sample_weight": w.tolist() if use_w_of(D) else None})
             raised = None
             try:
-                h.train(obj, op, X, y, w, cfg["weights"])
+                h.train(obj, op, X, y, w, use_w_of(D))
                 pred = full_pred(obj, task)
             except Exception as ex:
                 pred, raised = h.raised_outcome(ex, ids), h.exc_text(ex)
@@ -323,7 +329,7 @@ def _est_job(arg):
                 ref = clone(proto)
                 for rop, rD in refcalls:
                     rX, ry, rw = tab.data(rD, task, n_annot)
-                    h.train(ref, rop, rX, ry, rw, cfg["weights"])
+                    h.train(ref, rop, rX, ry, rw, use_w_of(rD))
                     n_eval += 1
                 refpred = full_pred(ref, task)
             except Exception as ex:
